@@ -334,6 +334,7 @@ CONSTANTS
   Lose = {lose}
   Swap = {swap}
   Dup = {dup}
+  InLoop = {inloop}
 {prop}INVARIANT CompletesAtMostOnce
 INVARIANT CompletionMeansIdentified
 INVARIANT StepsInRange
@@ -342,19 +343,52 @@ CHECK_DEADLOCK FALSE
 """
 
 
+def rdac_inloop_run(seed):
+    import asyncio
+    import random
+    import warnings
+    warnings.simplefilter("ignore")          # "coroutine was never awaited": part of what is being observed, not of the report
+    core.setup_repo_path()
+    from okdmr.dmrlib.hytera.snmp import SNMP
+    from okdmr.dmrlib.protocols.hytera.rdac_datagram_protocol import RDACDatagramProtocol
+    from okdmr.dmrlib.storage.repeater_storage import RepeaterStorage
+
+    async def walk(self, ip, snmp_community="public", first_try=True, timeout_secs=2):
+        return {"callsign": "OK1DMR"}
+    SNMP.walk_ip = walk
+    rng = random.Random(seed)
+    done, raised = [], []
+    h = RDACDatagramProtocol(storage=RepeaterStorage(), callback=lambda i: done.append(i))
+    h.connection_made(FakeTransport())
+
+    async def main():
+        import contextlib
+        import io
+        import warnings
+        for d in path_to(14):
+            try:
+                with contextlib.redirect_stdout(io.StringIO()), warnings.catch_warnings():
+                    warnings.simplefilter("ignore")
+                    h.datagram_received(rdac_build(rng, d), ("ip1", RDAC_PORT))
+            except Exception as ex:  # noqa
+                raised.append(type(ex).__name__)
+    asyncio.run(main())
+    return {"step": int(h.step.get("ip1", 0)), "done": len(done), "raised": "+".join(raised) or "nothing"}
+
+
 def rdacloop_phase(ctx):
     """growth beyond the statement (spec/MC_RDACLoop.tla): the RDAC handler in a closed loop with a repeater that answers as
     expected, over a network that loses, swaps or duplicates responses.  TLC proves completion on the clean network and lists
     every maximal behaviour of the faulty one; each is replayed on the real handler (per-step verdicts by Trace_RDAC - these
     are ordinary datagram histories of C18 - and the final step / completions compared with the model)."""
     with open(os.path.join(ctx.rundir, "MC_RDACLoop_clean.cfg"), "w") as f:
-        f.write(LOOPCFG.format(lose=0, swap=0, dup=0, prop="PROPERTY EventuallyIdentified\n"))
+        f.write(LOOPCFG.format(lose=0, swap=0, dup=0, inloop="FALSE", prop="PROPERTY EventuallyIdentified\n"))
     res = core.run_tlc(ctx, "MC_RDACLoop", "MC_RDACLoop_clean.cfg", timeout=600, workers=1)
     if res.violated:
         ctx.outside(f"RDAC closed loop on a clean network: the design model violates {res.violated}")
     b = (1, 1, 1) if ctx.quick else (2, 2, 2)
     with open(os.path.join(ctx.rundir, "MC_RDACLoop_faulty.cfg"), "w") as f:
-        f.write(LOOPCFG.format(lose=b[0], swap=b[1], dup=b[2], prop=""))
+        f.write(LOOPCFG.format(lose=b[0], swap=b[1], dup=b[2], inloop="FALSE", prop=""))
     res = core.run_tlc(ctx, "MC_RDACLoop", "MC_RDACLoop_faulty.cfg", timeout=1800, workers=1)
     if res.violated:
         ctx.outside(f"RDAC closed loop on a faulty network: the design model violates {res.violated}")
@@ -387,6 +421,22 @@ def rdacloop_phase(ctx):
                     "one-octet reset restarts it")
     for part in core.chunks(traces, 300):
         judge(ctx, part, ctx.validate_traces("Trace_RDAC", "Trace_RDAC.cfg", part), "closed-loop behaviour", "rdac")
+    # ---- the same clean run with the handler driven from inside a running event loop and the SNMP read NOT replaced
+    # (only the network call below it, SNMP.walk_ip, is): the model says the run reaches step 14 and never reports it
+    with open(os.path.join(ctx.rundir, "MC_RDACLoop_inloop.cfg"), "w") as f:
+        f.write(LOOPCFG.format(lose=0, swap=0, dup=0, inloop="TRUE", prop=""))
+    res = core.run_tlc(ctx, "MC_RDACLoop", "MC_RDACLoop_inloop.cfg", timeout=600, workers=1)
+    with Pool(1) as pool:                      # a process of its own: the stub of this phase differs from the other phases'
+        obs = pool.apply(rdac_inloop_run, (ctx.seed,))
+    ctx.note("rdac_inside_running_loop", {"model_violates": res.violated, "observed": obs})
+    model_silent = bool(res.violated) and "CompletionMeansIdentified" in str(res.violated)
+    if model_silent != (obs["step"] == 14 and obs["done"] == 0):
+        ctx.model_drift(f"RDAC inside a running loop: model says {'no ' if model_silent else ''}completion report, observed {obs}")
+    if obs["step"] == 14 and obs["done"] == 0:
+        ctx.outside("RDAC identification driven from inside a running asyncio event loop (how a DatagramProtocol is driven outside tests), with only "
+                    f"the network call SNMP.walk_ip replaced: the completing datagram raises {obs['raised']} (Repeater.read_snmp_values calls "
+                    "asyncio.run()), the step is 14 and the completion callback is never invoked - C18 prescribes a stub for read_snmp_values, "
+                    "under which completion is reported exactly once")
 
 
 # ------------------------------------------------------------------------------ run
